@@ -21,7 +21,7 @@ def run(pid, tier):
     pool = pc.gen(rep, 'C08', dict(MaxUnits=1), nparts=1, timeout=900)
     msgs = [s['chunks'][0] for s in pool]
     base = pool[0]
-    na, nb = (60, 45) if tier == 'quick' else (250, 160)
+    na, nb = (60, 45) if tier == 'quick' else (400, 300)
     As = [[m] for m in rng.sample(msgs, min(na, len(msgs)))] + SPECIAL_A
     rel = [m for m in msgs if bytes(m).startswith((b'B?', b'ECHO? 2', b'PART?', b'TXT?', b'NONE?', b'SENS'))]
     Bs = rng.sample(msgs, min(nb, len(msgs))) + [m for m in rel if bytes(m).startswith(b'SENS')][:6] + rel[:18]
@@ -56,4 +56,4 @@ def replay(pid, path):
 MANIFEST = dict(engine='tlc-gen+harness+tlc-trace', ref='DESIGN.md section 6 C09',
    technique='ScpiParser.tla states per-message initial state by construction (RunMsg is a function of the message); TLC compares B-after-A with B-alone for recorded executions of the real parser',
    text='In the specification the path, parameter cursor, result accounting and separator state are arguments initialised per message / per unit, so isolation holds by construction and TLC checks the lemmas on every enumerated message; on the real library every ordered pair from a pool of messages (incl. overrun, flushed-incomplete, unfinished-block and failing first messages) is executed and TLC checks that what B did after A equals what B does on a fresh context.',
-   note='Trusted: TLC, driver. Pairs are sampled from the pool with the seed (quick about 3x10^3 pairs, thorough about 4x10^4).')
+   note='Trusted: TLC, driver. Pairs are sampled from the pool with the seed (quick about 3x10^3 pairs, thorough about 1.2x10^5).')
